@@ -35,6 +35,8 @@ def make_resolver(beh):
             return (pick(f1, f2, 1), False)
         if beh == "merged_nokeep":
             return (io.BytesIO(MERGED), False)
+        if beh == "merged_keep":
+            return (io.BytesIO(MERGED), True)
         if beh == "none":
             return None
         if beh == "raises":
@@ -167,6 +169,19 @@ def run(ctx):
                 ctx.violation("conflict outcome differs from the specified one (C05): %s; observed %d resolver call(s), views %s; "
                               "expected (calls, local, remote) = %s" % (casej, r["ncalls"], r["views"], ans[1:]),
                               dict(kind="conflict-run", case=casej, observed=dict(calls=r["ncalls"], views=r["views"]), expected=ans[1:]))
+        # ---- deterministic probe: merged data with keep = True.  The property states no outcome for it, but whatever the
+        # resolver answers the engine must reach a quiet state in a bounded number of steps (C01); it does not (finding E-7).
+        stats["merged_keep_probe"] = {}
+        for shape in ("create", "edit"):
+            r = run_one((flavours[0], shape, "distinct", "merged_keep", (), 0))
+            settled = "error" not in r
+            stats["merged_keep_probe"][shape] = "settled" if settled else "%s after %s resolver calls" % (r.get("error"), r.get("calls"))
+            if not settled:
+                ctx.violation("resolver answering (merged data, keep=True): the engine never goes quiet, it keeps producing "
+                              "'.conflicted.conflicted...' copies and calling the resolver again (%s, %s resolver calls in 150 rounds)"
+                              % (shape, r.get("calls")),
+                              dict(kind="conflict-run", case=dict(flavour=flavours[0], shape=shape, contents="distinct",
+                                                                  behaviour="merged_keep", schedule=[], first_side=0)))
     cov["evaluations"] = dist.total
     cov["distinct_nontrivial"] = dist.nontrivial
     cov["exhaustive"] = not ctx.quick
@@ -183,6 +198,6 @@ def run(ctx):
           "harness/engine.py observers (resolver wrapper reads both handles before delegating), virtual clock, serial ids",
           "modelled, not verified: the engine's conflict path itself (SyncManager.handle_hash_conflict/resolve_conflict) — the theorems "
           "are about the specified outcome; every explored schedule of the real engine must land on it",
-          "not covered: resolver answers 'merged data, keep=True' (not specified by the property; the engine does not settle: finding E-7), "
+          "resolver answer 'merged data, keep=True': no outcome is specified by the property; only probed for settling (open finding E-7: the engine never goes quiet); "
           "a resolver raising CloudTemporaryError (retried by design, so called more than once), path-style ids"]
     return ctx.finish(tb)
